@@ -186,11 +186,23 @@ def _type_xml(t, ind, out):
 
 
 def _level_xml(level, ind, out):
-    for f in level.fields:
+    late = []
+    fields = level.fields
+    if getattr(level, "_field_after_groups", False) and fields:
+        fields, late = fields[:-1], fields[-1:]      # C08: a field rendered after the groups (member order rule)
+    _fields_xml(fields, ind, out)
+    _groups_data_xml(level, ind, out, late)
+
+
+def _fields_xml(fields, ind, out):
+    for f in fields:
         out.append("%s<field%s/>" % (ind, _attrs([("name", f.name), ("id", f.id), ("type", f.type), ("offset", f.offset),
                                                    ("presence", f.presence), ("valueRef", f.value_ref),
                                                    ("sinceVersion", f.since), ("deprecated", f.deprecated),
                                                    ("description", f.desc)])))
+
+
+def _groups_data_xml(level, ind, out, late_fields=()):
     for g in level.groups:
         out.append("%s<group%s>" % (ind, _attrs([("name", g.name), ("id", g.id), ("dimensionType", g.dim),
                                                   ("blockLength", g.block_length), ("sinceVersion", g.since),
@@ -198,6 +210,7 @@ def _level_xml(level, ind, out):
                                                   ("semanticType", g.sem)])))
         _level_xml(g, ind + "  ", out)
         out.append("%s</group>" % ind)
+    _fields_xml(late_fields, ind, out)
     for d in level.data:
         out.append("%s<data%s/>" % (ind, _attrs([("name", d.name), ("id", d.id), ("type", d.type),
                                                   ("sinceVersion", d.since), ("deprecated", d.deprecated),
